@@ -3,8 +3,9 @@
   the real process tree. Only statements the property makes; helper lemmas live in
   Proofs/C05*.lean.
 
-  `cfg`/`scfg`/`xcfg`/`ocfg` are built from Generated/C05.lean (22 facts), which the translator rewrites
-  from /repo's source on every run. `cfg_good`/`scfg_good`/`xcfg_good`/`ocfg_good` are the proof
+  `cfg`/`scfg`/`xcfg`/`ocfg`/`rcfg` are built from Generated/C05.lean (25 facts), which the translator rewrites
+  from /repo's source on every run. `cfg_good`/`scfg_good`/`xcfg_good`/`ocfg_good`/`rcfg_good` (the last one: the range
+  gate of `Process(pid)` refuses no PID below PID_MAX_LIMIT, last section of this file) are the proof
   obligations that break when one of the three create-time tests stops being `<=` (or compares other
   operands), the `seen` guard of the recursive walk goes away, `children()` hands out the caller itself
   again, `parents()` loses its PID-keyed cycle stop, an identity pre-check, the `_gone` test or the
@@ -32,6 +33,7 @@ import PsutilModel.Proofs.C05Static
 import PsutilModel.Proofs.C05Soft
 import PsutilModel.Proofs.C05Lit
 import PsutilModel.Proofs.C05Seq
+import PsutilModel.Proofs.C05Range
 import PsutilModel.Model.C05Gen
 namespace Psutil.C05
 open Spec
@@ -1310,5 +1312,139 @@ theorem C05_guard_not_matters_without_gone_test :
     (raiseIfPidReused false (lookOf [⟨1, 0, 1⟩, ⟨5, 1, 15⟩]) ⟨5, 10, false, false⟩).2 = true
     ∧ (raiseIfPidReusedNoNot false (lookOf [⟨1, 0, 1⟩, ⟨5, 1, 15⟩]) ⟨5, 10, false, false⟩).2 = false := by
   refine ⟨by decide, by decide⟩
+
+/-! ## Seeded round 5: the MAGNITUDE of a PID — the range gate of `Process(pid)`
+
+  Every look-up the tree walkers make through a new `Process` object passes `Process._init()`'s range check
+  (`cext.check_pid_range(pid)`: OverflowError → NoSuchProcess) before any file is read (Model/C05Range.lean). The
+  statement quantifies over EVERY process table: the listed PIDs may lie anywhere in the kernel's range
+  `[0, PID_MAX_LIMIT)` (Spec/C05Range.lean: 2^22 on 64-bit Linux). `rcfg` carries the three translator facts about the gate
+  (`checkPidRangeLimit`, `checkPidRangeShapeKnown` from psutil/_psutil_common.c, `initRangeOnlyC` from `Process._init()`); the obligation
+  `rcfg_good` says the gate refuses nothing below PID_MAX_LIMIT. Under it the gated walkers ARE the walkers of the
+  earlier sections on every table of that range (`C05_range_*_refines`), so each clause of the statement holds for
+  PIDs of any magnitude (`C05_range_children_exact`, `…_rec_exact`, `C05_range_parent_spec`, `C05_range_parents_chain`,
+  `C05_range_listed_opens`); a gate with a smaller limit breaks every one of them (`C05_range_limit_necessary`,
+  `C05_range_small_limit_counterexample`: seeded change C05-7). -/
+
+/-- **rcfg_good** (proof obligation on the facts `checkPidRangeLimit`, `checkPidRangeShapeKnown`, `initRangeOnlyC`):
+    `Process(pid)` refuses no PID the kernel can hand out. Breaks when the C helper starts refusing PIDs below 2^22, when it
+    (or `Process._init()`) uses `pid` in a way the translator does not know, or when `_init()` grows a refusal of its own. -/
+theorem rcfg_good : rcfg.Good := ⟨by decide, by decide, by decide⟩
+
+/-- **C05_range_gate_transparent.** For ANY gate whose limit is not below PID_MAX_LIMIT, a world that shows processes
+    only at PIDs the kernel can hand out looks the same through the gate. -/
+theorem C05_range_gate_transparent (rc : RCfg) (hrc : pidMaxLimit ≤ rc.limit) :
+    (∀ look, InRangeL pidMaxLimit look → ctorLook rc look = look)
+      ∧ (∀ w, InRangeW pidMaxLimit w → ctorW rc w = w)
+      ∧ (∀ s, InRangeS pidMaxLimit s → s.gated rc = s) :=
+  ⟨fun _ h => ctorLook_eq (InRangeL.mono h hrc), fun _ h => ctorW_eq (InRangeW.mono h hrc), fun _ h => gated_eq (InRangeS.mono h hrc)⟩
+
+/-- **C05_range_listed_opens.** Every listed process of a table in the kernel's PID range — whatever the magnitude of
+    its PID — can be opened: `Process(pid)` succeeds and describes the listed incarnation. -/
+theorem C05_range_listed_opens (T : Table) (hT : T.pids.Nodup) (hin : PidsInRange T) (r : Row) (hr : r ∈ T) :
+    mkProcessR rcfg (lookOf T) r.pid = .ok ⟨r.pid, r.start, false, false⟩ := by
+  rw [mkProcessR_eq (InRangeL.mono (inRangeL_lookOf hin) rcfg_good.limit)]
+  unfold mkProcess
+  rw [lookOf_listed hT hr]
+
+/-- **C05_range_children_refines.** In worlds of the kernel's PID range the gated `children()` is `children()` of the
+    earlier sections — plain model (any ppid map, any look-up world) and richer world alike, both modes. -/
+theorem C05_range_children_refines (me : Caller) (recursive : Bool) :
+    (∀ look0 pm look, InRangeL pidMaxLimit look0 → InRangeL pidMaxLimit look →
+        childrenR rcfg cfg me recursive look0 pm look = children cfg me recursive look0 pm look)
+      ∧ (∀ L w0 wl, InRangeW pidMaxLimit w0 → InRangeW pidMaxLimit wl →
+        childrenXR rcfg xcfg me recursive L w0 wl = childrenX xcfg me recursive L w0 wl) :=
+  ⟨fun _ pm _ h0 h => childrenR_eq (InRangeL.mono h0 rcfg_good.limit) (InRangeL.mono h rcfg_good.limit) cfg me recursive pm,
+   fun L _ _ h0 h => childrenXR_eq (InRangeW.mono h0 rcfg_good.limit) (InRangeW.mono h rcfg_good.limit) xcfg me recursive L⟩
+
+/-- **C05_range_parents_refines.** The same for `parent()` and `parents()`: any sequence of worlds of the kernel's PID
+    range (ancestors exiting, recycled, re-parented between the steps), any oneshot state. -/
+theorem C05_range_parents_refines (ps : Ps) (me : Caller) (os : Oneshot) :
+    (∀ s, InRangeS pidMaxLimit s → parentXR rcfg cfg ps s me os = parentX cfg ps s me os)
+      ∧ (∀ fuel W, (∀ i, InRangeS pidMaxLimit (W i)) → parentsXR rcfg cfg fuel ps W me os = parentsX cfg fuel ps W me os) :=
+  ⟨fun _ h => parentXR_eq (InRangeS.mono h rcfg_good.limit) cfg ps me os,
+   fun fuel _ h => parentsXR_eq (fun i => InRangeS.mono (h i) rcfg_good.limit) cfg fuel ps me os⟩
+
+/-- **C05_range_children_exact.** On ANY process table whose PIDs lie anywhere in the kernel's range (unique, any
+    parent links, any start times) `children()` — every child looked up through `Process(pid)` and its range check —
+    is exactly the set of rows whose ppid is the caller and that did not start before it, each once, never the caller. -/
+theorem C05_range_children_exact (T : Table) (hT : T.pids.Nodup) (hin : PidsInRange T) (me : Caller)
+    (hr : me.reused = false) (hgone : me.gone = false) (ha : Alive (lookOf T) me) :
+    ∃ l, (childrenR rcfg cfg me false (lookOf T) (ppidMap T) (lookOf T)).2 = .ok l
+      ∧ IsSetOf l (fun c => ∃ r, ChildT T me.pid me.ctime r ∧ r.pid = c ∧ c ≠ me.pid) := by
+  rw [(C05_range_children_refines me false).1 _ _ _ (inRangeL_lookOf hin) (inRangeL_lookOf hin)]
+  exact C05_children_table T hT me hr hgone ha
+
+/-- **C05_range_children_rec_exact.** …and `children(recursive=True)` exactly the processes reachable through parent
+    links (`Desc`), each once, minus the caller — a child with a seven-digit PID carries its whole subtree. The look-up
+    world `look` may differ from the table (processes vanishing while the tree is walked) as long as it stays in range. -/
+theorem C05_range_children_rec_exact (T : Table) (hT : T.pids.Nodup) (hin : PidsInRange T) (look : Look)
+    (hlook : InRangeL pidMaxLimit look) (me : Caller)
+    (hr : me.reused = false) (hgone : me.gone = false) (ha : Alive (lookOf T) me) :
+    ∃ l, (childrenR rcfg cfg me true (lookOf T) (ppidMap T) look).2 = .ok l
+      ∧ IsSetOf l (fun c => Desc (ppidMap T) look me.ctime me.pid c ∧ c ≠ me.pid) := by
+  rw [(C05_range_children_refines me true).1 _ _ _ (inRangeL_lookOf hin) hlook]
+  exact C05_children_rec_exact me (lookOf T) (ppidMap T) look (uniquePids_ppidMap hT) hr hgone ha
+
+/-- **C05_range_parent_spec.** `parent()` on a table of the kernel's PID range, the parent looked up through
+    `Process(ppid)` and its range check: the process named by ppid() unless younger (psutil's reading `parentOf`). -/
+theorem C05_range_parent_spec (ps : Ps) (T : Table) (hin : PidsInRange T) (me : Caller)
+    (hfresh : ps.lowest = none ∨ ps.lowest = minPid? T) (hr : me.reused = false)
+    (hgone : me.gone = false) (hl : lookOf T me.pid = some me.ctime) :
+    (parentXR rcfg cfg ps (stepOfX (Table.toX T)) me none).2.2.2 = .ok (parentOf T me.pid me.ctime) := by
+  rw [(C05_range_parents_refines ps me none).1 _ (inRangeS_stepOfX (toX_bound hin))]
+  have h := (C05_static_parent_refines cfg ps (Table.toX T) (toX_readable T) me none (by intro pp h; cases h)).2.2
+  rw [h, toX_plain, C05_parent_spec ps T me hfresh hr hgone hl]
+  rfl
+
+/-- **C05_range_parents_chain.** `parents()` likewise: the `Chain` of the table, whatever the magnitude of the PIDs on it. -/
+theorem C05_range_parents_chain (ps : Ps) (T : Table) (hin : PidsInRange T) (me : Caller)
+    (hfresh : ps.lowest = none ∨ ps.lowest = minPid? T) (hr : me.reused = false)
+    (hgone : me.gone = false) (hl : lookOf T me.pid = some me.ctime) :
+    ∃ l, (parentsXR rcfg cfg (parentsFuel T) ps (fun _ => stepOfX (Table.toX T)) me none).2 = .ok l
+      ∧ Chain T [me.pid] me.pid me.ctime l := by
+  rw [(C05_range_parents_refines ps me none).2 _ _ (fun _ => inRangeS_stepOfX (toX_bound hin))]
+  have h := C05_static_parents_chain ps (Table.toX T) (toX_readable T) me (by rw [toX_plain]; exact hfresh) hr hgone
+    (by rw [toX_plain]; exact hl)
+  rw [toX_plain] at h
+  exact h
+
+/-- **C05_range_limit_necessary.** The obligation is sharp: ANY gate whose limit lies below PID_MAX_LIMIT refuses a
+    process the kernel can show — a one-row table in range whose only process cannot be opened (`NoSuchProcess`). -/
+theorem C05_range_limit_necessary (rc : RCfg) (h : rc.limit < pidMaxLimit) :
+    ∃ T : Table, PidsInRange T ∧ T.pids.Nodup ∧ ∃ r ∈ T, mkProcessR rc (lookOf T) r.pid = .nsp r.pid := by
+  refine ⟨[⟨rc.limit, 0, 0⟩], ?_, by simp [Table.pids], ⟨rc.limit, 0, 0⟩, List.mem_cons_self .., ?_⟩
+  · intro r hr
+    rw [List.mem_singleton] at hr
+    subst hr
+    exact h
+  · exact mkProcessR_refused rc _ _ (Nat.le_refl _)
+
+/-- the gate of seeded change C05-7: the C helper refuses every PID from 0x40000 = 262144 on -/
+def smallGate : RCfg := ⟨262144, true, true⟩
+
+/-- caller 1000 with children 1001 and 300000; 1500 hangs below 300000; 1600's parent is 300000 -/
+def tBigPid : Table := [⟨1, 0, 1⟩, ⟨1000, 1, 10⟩, ⟨1001, 1000, 20⟩, ⟨300000, 1000, 23⟩, ⟨1500, 300000, 30⟩]
+
+/-- **C05_range_small_limit_counterexample** (seeded C05-7). With the gate at 262144 the table `tBigPid` — all PIDs
+    below PID_MAX_LIMIT — breaks three clauses at once: `children()` of 1000 loses the listed child 300000,
+    `children(recursive=True)` loses it AND its subtree (1500, a small PID), `parent()` of 1500 answers None although its
+    parent 300000 is listed and older, `parents()` of 1500 is empty; the gate of the current source (`rcfg`) gives the
+    values of the statement. -/
+theorem C05_range_small_limit_counterexample :
+    PidsInRange tBigPid
+      ∧ (childrenR smallGate cfg ⟨1000, 10, false, false⟩ false (lookOf tBigPid) (ppidMap tBigPid) (lookOf tBigPid)).2 = .ok [1001]
+      ∧ (childrenR smallGate cfg ⟨1000, 10, false, false⟩ true (lookOf tBigPid) (ppidMap tBigPid) (lookOf tBigPid)).2 = .ok [1001]
+      ∧ (parentXR smallGate cfg ⟨none⟩ (stepOfX (Table.toX tBigPid)) ⟨1500, 30, false, false⟩ none).2.2.2 = .ok none
+      ∧ (parentsXR smallGate cfg 7 ⟨none⟩ (fun _ => stepOfX (Table.toX tBigPid)) ⟨1500, 30, false, false⟩ none).2 = .ok []
+      ∧ mkProcessR smallGate (lookOf tBigPid) 300000 = .nsp 300000
+      ∧ (childrenR rcfg cfg ⟨1000, 10, false, false⟩ false (lookOf tBigPid) (ppidMap tBigPid) (lookOf tBigPid)).2 = .ok [1001, 300000]
+      ∧ (childrenR rcfg cfg ⟨1000, 10, false, false⟩ true (lookOf tBigPid) (ppidMap tBigPid) (lookOf tBigPid)).2
+          = .ok [1001, 300000, 1500]
+      ∧ (parentXR rcfg cfg ⟨none⟩ (stepOfX (Table.toX tBigPid)) ⟨1500, 30, false, false⟩ none).2.2.2 = .ok (some ⟨300000, 1000, 23⟩)
+      ∧ (parentsXR rcfg cfg 7 ⟨none⟩ (fun _ => stepOfX (Table.toX tBigPid)) ⟨1500, 30, false, false⟩ none).2
+          = .ok [⟨300000, 1000, 23⟩, ⟨1000, 1, 10⟩, ⟨1, 0, 1⟩] := by
+  refine ⟨by show ∀ r ∈ tBigPid, r.pid < pidMaxLimit; decide, by decide, by decide, by decide, by decide, by decide, by decide, by decide, by decide, by decide⟩
+
 
 end Psutil.C05
